@@ -22,7 +22,7 @@ ASSUMPTIONS = [
 ]
 
 def plan(tier):
-    return dict(runs=4800 if tier == 'quick' else 120000, timeout=300 if tier == 'quick' else 5400)
+    return dict(runs=4800 if tier == 'quick' else 120000, timeout=900 if tier == 'quick' else 5400)
 
 def make_cfg(ctx):
     rng = ctx.rng('workload')
